@@ -191,9 +191,15 @@ package lib
 //@   checks safety
 //@ loop 1:
 //@   invariant 0 <= i && i <= regIDLen && (cap(xid) == 0 || fresh(xid))
-//@ func writePROXYHeader(conn net.Conn, address string) error
+// C17: whatever goes wrong while the PROXY header (which carries the client's address and port) is sent to the covert,
+// the error handed back - Proxy logs it at Error level - is of the network stack's shape or address-free: it is never a
+// text that quotes the header or the address string. (The address string is the String() of the client connection's
+// remote address, which is well-formed, so splitting it cannot fail with an error that quotes it - assumed at the call
+// site in Proxy, whose contract is structural.)
+//@ func writePROXYHeader(conn net.Conn, originalIPPort string) error
+//@   requires conn != nil && wellFormedHP(originalIPPort) && addrFreeStr("can't write PROXY header: empty IP")
+//@   ensures @C17: netStackErr(result)
 //@   assigns txh(conn), nwritten(conn), nwrites(conn), wfail(conn)
-//@   trusted
 //@ func (ts *tunnelStats) Print(logger *log.Logger)
 //@   assigns nothing
 //@   trusted
